@@ -12,10 +12,13 @@
     {"f":"succ","h":[..]}       -> {"v":[[..]..]}            (traceSucc)
     {"f":"intern","hs":[[..]..]}-> {"v":[n,...]}             (flyweight model, fresh table)
     {"f":"eq","a":[..],"b":[..]}-> {"v":b}
+    {"f":"frag","q":"hinst"|..,"root":R,"sel":..} -> {"v":[[theorem,"in"|"out:<hyp>"],..]}   (reach of theorems)
+    {"f":"fragref","h":[..]}                      -> {"v":[[theorem,verdict],..]}
 -/
 import Spydr.Common.Proto
 import Spydr.Hier.Model
 import Spydr.Hier.Spec
+import Spydr.Hier.Frag
 
 open Lean Spydr.Proto Spydr.Hier
 
@@ -112,16 +115,30 @@ def answer (d : Design) (q : Json) : Except String Json := do
   | "eq" => pure (Json.mkObj [("v", Json.bool (hrefEq (← natList (← getArr q "a")) (← natList (← getArr q "b"))))])
   | _ => throw s!"unknown query {f}"
 
-def handle (st : Design) (j : Json) : Except String (Design × Json) :=
+def ofPairs (l : List (String × String)) : Json :=
+  Json.arr (l.map (fun p => Json.arr #[Json.str p.1, Json.str p.2])).toArray
+
+/-- reach bookkeeping: which theorems speak about this case, and is the case inside their fragment -/
+def answerSt (st : Design × Flags) (q : Json) : Except String Json := do
+  let f ← getStr q "f"
+  match f with
+  | "frag" =>
+    pure (Json.mkObj [("v", ofPairs (fragOfQuery st.1 st.2 (← getStr q "q") (← decRoot (← q.getObjVal? "root")) (decSel q)))])
+  | "fragref" => pure (Json.mkObj [("v", ofPairs (fragOfRef st.1 st.2 (← natList (← getArr q "h"))))])
+  | _ => answer st.1 q
+
+def handle (st : Design × Flags) (j : Json) : Except String ((Design × Flags) × Json) :=
   match j.getObjVal? "load" with
   | .ok dj => do
     let d ← decDesign dj
-    pure (d, Json.mkObj [("ok", Json.bool true), ("wf", Json.bool (wfCheck d)), ("wfnet", Json.bool (wfNetCheck d)), ("sorted", Json.bool (sortedCheck d))])
+    let fl := Flags.of d
+    pure ((d, fl), Json.mkObj [("ok", Json.bool true), ("wf", Json.bool fl.wf), ("wfnet", Json.bool fl.wfnet), ("sorted", Json.bool fl.sorted)])
   | .error _ => do
     let qs ← getArr j "q"
-    let rs ← qs.toList.mapM (answer st)
+    let rs ← qs.toList.mapM (answerSt st)
     pure (st, Json.mkObj [("r", Json.arr rs.toArray)])
 
 end Spydr.Hier.Drv
 
-def main : IO Unit := Spydr.Proto.run Spydr.Hier.Drv.handle ({ defs := [], top := none } : Spydr.Hier.Design)
+def main : IO Unit :=
+  Spydr.Proto.run Spydr.Hier.Drv.handle ((({ defs := [], top := none } : Spydr.Hier.Design)), (⟨true, true, true⟩ : Spydr.Hier.Flags))
